@@ -6,7 +6,7 @@ Open Scope N_scope.
 
 Definition obs0 : obs := mkObs 0 [] [] [] [] [] [] [] 0 0 [].
 
-Definition ob_find (o : obs) (id : N) : option task := find_task id (ob_roster o).
+Definition ob_find (o : obs) (id : tid) : option task := find_task id (ob_roster o).
 Definition ob_env (o : obs) (e : N) : option envobs :=
   find (fun x => N.eqb (eo_id x) e) (ob_envs o).
 
@@ -19,14 +19,14 @@ Fixpoint spec_of (e : N) (ops : list op) : option cspec :=
   | _ :: r => spec_of e r
   end.
 
-Definition role_of (ops : list op) (tid : N) : option role :=
-  match spec_of (tid / 64) ops with
-  | Some c => nth_error (c_roles c) (N.to_nat (tid mod 64))
+Definition role_of (ops : list op) (id : tid) : option role :=
+  match spec_of (fst id) ops with
+  | Some c => nth_error (c_roles c) (N.to_nat (snd id))
   | None => None
   end.
 
-Definition is_hook_tid (ops : list op) (tid : N) : bool :=
-  match role_of ops tid with Some r => is_hook_task r | None => false end.
+Definition is_hook_tid (ops : list op) (id : tid) : bool :=
+  match role_of ops id with Some r => is_hook_task r | None => false end.
 
 (* first non-zero code, the codes of [late] having the lowest priority (they are the classes of
    the defects the unchanged code is known to have: they must not hide anything else) *)
@@ -61,12 +61,12 @@ Definition mon04_step (ops : list op) (prev : obs) (o : op) (cur : obs) : list N
   let me := op_env o in
   let mine (ow : option N) : bool :=
     match ow, me with Some a, Some b => N.eqb a b | _, _ => false end in
-  let fresh_for_me (id : N) : bool :=
-    match ob_find prev id, me with None, Some e => N.eqb (id / 64) e | _, _ => false end in
-  let died (id : N) : bool := match o with ODies t => N.eqb t id | _ => false end in
+  let fresh_for_me (id : tid) : bool :=
+    match ob_find prev id, me with None, Some e => N.eqb (fst id) e | _, _ => false end in
+  let died (id : tid) : bool := match o with ODies t => tid_eqb t id | _ => false end in
   (* 7 *)
-  let c7 := if nodupb N.eqb (map t_id (ob_roster cur)) &&
-               forallb (fun t => match t_owner t with Some e => N.eqb (t_id t / 64) e | None => true end)
+  let c7 := if nodupb tid_eqb (map t_id (ob_roster cur)) &&
+               forallb (fun t => match t_owner t with Some e => N.eqb (fst (t_id t)) e | None => true end)
                        (ob_roster cur)
             then 0 else 7 in
   (* 3 *)
@@ -134,8 +134,8 @@ Definition gone_checks (ops : list op) (e : N) (prev cur : obs) (keep : bool)
   let mine := filter (fun t => owner_is e t) (ob_roster cur) in
   let c2 := if forallb (fun t => is_hook_tid ops (t_id t)) mine then 0 else 2 in
   let c1 := match filter (fun t => is_hook_tid ops (t_id t)) mine with [] => 0 | _ => 1 end in
-  let still_mine (id : N) : bool := existsb (fun t => N.eqb (t_id t) id) mine in
-  let killed (id : N) : bool := memN id (ob_kills cur) in
+  let still_mine (id : tid) : bool := existsb (fun t => tid_eqb (t_id t) id) mine in
+  let killed (id : tid) : bool := mem_tid id (ob_kills cur) in
   (* tasks the environment owned before the request *)
   let c4a := if keep then 0
              else if forallb (fun t => negb (owner_is e t) || negb (t_active t) ||
@@ -143,8 +143,8 @@ Definition gone_checks (ops : list op) (e : N) (prev cur : obs) (keep : bool)
                   then 0 else 4 in
   (* tasks launched (hence owned) during a creation that failed: those reporting TASK_RUNNING
      must be KILLed (code 4), and so must those still staging at that moment (code 5) *)
-  let launched := if created then filter (fun id => N.eqb (id / 64) e) (ob_launch cur) else [] in
-  let mode (id : N) : N := match role_of ops id with Some r => r_launch r | None => 9 end in
+  let launched := if created then filter (fun id => N.eqb (fst id) e) (ob_launch cur) else [] in
+  let mode (id : tid) : N := match role_of ops id with Some r => r_launch r | None => 9 end in
   let c4b := if forallb (fun id => negb (N.eqb (mode id) 0) || killed id || still_mine id) launched
              then 0 else 4 in
   let c5 := if forallb (fun id => negb (N.eqb (mode id) 2) || killed id || still_mine id) launched
